@@ -399,6 +399,101 @@ func run(c *core.Child) {
 	}
 	if only == "" || only == "family" {
 		k.family()
+		k.exclusiveFamily()
+	}
+}
+
+// exclusiveFamily (added by the lead after a seeded change made the overlap
+// rule's (fields, fragment) memo ignore the "mutually exclusive" flag): all
+// sequences of up to three inline fragments on Dog / Cat below an interface-
+// typed field, each selecting `owner { body }` with body drawn from plain
+// fields, an aliased field, and spreads of fragments that hide an alias. The
+// same (field set, fragment) pair is then compared under exclusive parents
+// (Dog vs Cat: only shapes must agree) and under the same parent (Dog vs Dog:
+// names and arguments must agree too), in every order.
+func (k *ck) exclusiveFamily() {
+	c := k.c
+	N := model.Named
+	str := N("String")
+	person := &model.TypeDef{Kind: model.Object, Name: "Person", Fields: []*model.FieldDef{{Name: "name", Type: str}, {Name: "nick", Type: str},
+		{Name: "age", Type: N("Int")}, {Name: "tag", Type: str, Args: []*model.InputDef{{Name: "n", Type: N("Int")}}}}}
+	petFields := []*model.FieldDef{{Name: "owner", Type: N("Person")}}
+	m := &model.Schema{Query: "Q", Types: []*model.TypeDef{person,
+		{Kind: model.Interface, Name: "Pet", Fields: petFields},
+		{Kind: model.Object, Name: "Dog", Interfaces: []string{"Pet"}, Fields: petFields},
+		{Kind: model.Object, Name: "Cat", Interfaces: []string{"Pet"}, Fields: petFields},
+		{Kind: model.Object, Name: "Q", Fields: []*model.FieldDef{{Name: "pet", Type: N("Pet")}}},
+	}, Extra: []string{"Dog", "Cat"}}
+	m.Reindex()
+	env, err := build.Build(m, 98)
+	if err != nil {
+		c.Violation("harness:schema-build", err.Error(), nil)
+		return
+	}
+	bodies := []string{"name", "name: nick", "name: age", "...X", "...Y", "...Z", "t: tag(n: 1)", "...T2"}
+	frags := map[string]string{
+		"...X":  " fragment X on Person { name: nick }",
+		"...Y":  " fragment Y on Person { name }",
+		"...Z":  " fragment Z on Person { ...X }",
+		"...T2": " fragment T2 on Person { t: tag(n: 2) }",
+	}
+	types := []string{"Dog", "Cat"}
+	nb := len(bodies) * len(types)
+	idx := 0
+	for L := 2; L <= 3; L++ {
+		total := 1
+		for i := 0; i < L; i++ {
+			total *= nb
+		}
+		for code := 0; code < total; code++ {
+			idx++
+			if idx%c.NBatches != c.Batch {
+				continue
+			}
+			if c.Quick() && L == 3 && code%3 != int(c.Seed%3) {
+				continue // quick: a seed-dependent third of the length-3 sequences
+			}
+			id := fmt.Sprintf("xfam/%d/%d", L, code)
+			if !c.Begin(id) {
+				continue
+			}
+			var b strings.Builder
+			b.WriteString("{ pet {")
+			used := map[string]bool{}
+			x := code
+			for i := 0; i < L; i++ {
+				sel := x % nb
+				x /= nb
+				body := bodies[sel%len(bodies)]
+				fmt.Fprintf(&b, " ... on %s { owner { %s } }", types[sel/len(bodies)], body)
+				if _, ok := frags[body]; ok {
+					used[body] = true
+					if body == "...Z" {
+						used["...X"] = true
+					}
+				}
+			}
+			b.WriteString(" } }")
+			for _, f := range []string{"...X", "...Y", "...Z", "...T2"} {
+				if used[f] {
+					b.WriteString(frags[f])
+				}
+			}
+			text := b.String()
+			doc, perr := syntax.Parse([]byte(text))
+			if perr != nil {
+				c.Violation("harness:family-text", "exclusive-family text rejected by the reference parser: "+perr.Msg, text)
+				continue
+			}
+			res := k.evaluate(&Case{Env: env, Doc: doc, Text: text, Origin: "exclusive-family"})
+			c.Feature("exclusive-family")
+			if res != nil && res[validate.OverlappingFieldsCanBeMerged].Must {
+				c.Feature("exclusive-family:overlap-conflict")
+				if code%41 == 0 {
+					c.Sample("exclusive-family", text)
+				}
+			}
+		}
 	}
 }
 
